@@ -518,4 +518,56 @@ pub struct ServerPool {'''),
             }''', new='''            if let Some((_, pool)) = get_all_pools().into_iter().next() {
                 pool.pause();
             }'''),
+    # ------------------------------------------------------------------ C07
+    dict(id="c07-primary-bannable", prop="C07", file="src/pool.rs", expect="C07-R1",
+         what="the primary guard in ban() removed",
+         old='''        // Primary can never be banned
+        if address.role == Role::Primary {
+            return;
+        }
+''', new=''''''),
+    dict(id="c07-failed-checkout-returns", prop="C07", file="src/pool.rs", expect="C07-R",
+         what="a failed checkout of one candidate ends the search",
+         old='''                    address.stats.error();
+                    client_stats.checkout_error();
+                    continue;''', new='''                    address.stats.error();
+                    client_stats.checkout_error();
+                    return Err(Error::AllServersDown);'''),
+    dict(id="c07-failed-checkout-no-ban", prop="C07", file="src/pool.rs", expect="C07-R2",
+         what="failed checkout no longer bans",
+         old='''                    self.ban(address, BanReason::FailedCheckout, Some(client_stats));
+''', new=''''''),
+    dict(id="c07-skip-try-unban", prop="C07", file="src/pool.rs", expect="C07-R3",
+         what="banned addresses are used without try_unban",
+         old='''            if self.is_banned(address) {
+                if self.try_unban(address).await {''', new='''            if self.is_banned(address) {
+                if self.try_unban(address).await || true {'''),
+    dict(id="c07-unban-all-off-by-one", prop="C07", file="src/pool.rs", expect="C07-R5",
+         what="unban-all compares with a constant instead of the replica count",
+         old='''        let all_replicas_banned = read_guard[address.shard].len() == replicas_available;''',
+         new='''        let _ = replicas_available;
+        let all_replicas_banned = read_guard[address.shard].len() == 3;'''),
+    dict(id="c07-receive-untimed", prop="C07", file="src/client.rs", expect="C07-R6",
+         what="server replies awaited without the statement timeout",
+         old='''        match tokio::time::timeout(
+            statement_timeout_duration,
+            server.recv(Some(&mut self.server_parameters)),
+        )
+        .await
+        {''', new='''        let _ = statement_timeout_duration;
+        match Ok::<_, tokio::time::error::Elapsed>(server.recv(Some(&mut self.server_parameters)).await)
+        {'''),
+    dict(id="c07-send-error-no-ban", prop="C07", file="src/client.rs", expect="C07-R2",
+         what="a failed send no longer bans the server",
+         old='''            Err(err) => {
+                pool.ban(address, BanReason::MessageSendFailed, Some(&self.stats));
+                Err(err)
+            }
+        }
+    }''', new='''            Err(err) => {
+                let _ = (pool, address);
+                Err(err)
+            }
+        }
+    }'''),
 ]
